@@ -50,6 +50,46 @@ def check(run, prog, tier):
     rule_E(run, prog)
     rule_F(run, prog)
     rule_G(run, prog)
+    run.rule("C18-H", "exporters and importers of basis- or units-managed classes move the values through the managed "
+                      "property, never through its raw storage", minimum=8)
+    rule_H(run, prog)
+
+
+def rule_H(run, prog):
+    """The `data` of a managed class is a property: reading it inside a basis (or units) context first brings the
+    object into that context.  .npy/.npz/.mat exports and all importers go through the property; an exporter that
+    reads `self._data` writes whatever representation the object happens to be in - the site basis if the export
+    is the object's first use inside the context - so the file does not load back to the values the other formats
+    and the reader give."""
+    import re
+    from .. import memo, unitflow
+    rid = "C18-H"
+    pat_ = re.compile(r"^(_export|_import|_load|_save|save_data$|load_data$|_add_axis|_extract_data)")
+    n = 0
+    for c in sorted(prog.all_classes(), key=lambda c: c.qualname):
+        if ".tests." in c.qualname or ".wizard." in c.qualname:
+            continue
+        managed = memo.basis_managed_attributes(prog, c) | unitflow.converted_attributes(prog, c)
+        if not managed:
+            continue
+        meths = {}
+        for b in reversed([x for x in prog.mro(c) if x is not None]):
+            for nme, fn in b.methods.items():
+                if pat_.match(nme):
+                    meths[nme] = fn
+        for nme, fn in sorted(meths.items()):
+            raw = [x for x in ast.walk(fn.node) if isinstance(x, ast.Attribute) and isinstance(x.value, ast.Name)
+                   and x.value.id == "self" and x.attr.startswith("_") and x.attr[1:] in managed]
+            n += 1
+            prog.consulted.add(fn.relpath)
+            run.obligation(rid, "%s.%s" % (c.name, nme), not raw, key="through-the-property",
+                           message="%s (reached from %s) touches the raw storage %s of a managed property: the values "
+                                   "written or read are those of whatever basis/units the object was last used in, not "
+                                   "of the current context" % (fn.short, c.name, sorted({norm(x) for x in raw})),
+                           loc=fn.loc(raw[0]) if raw else fn.loc(),
+                           sample={"class": c.name, "method": fn.short, "managed": sorted(managed)})
+    if n < 8:
+        raise AnalysisError("C18-H: only %d export/import methods of managed classes found" % n)
 
 
 def _dispatch(f):
